@@ -83,6 +83,12 @@ def generate(seed, idx, tier):
     has_cat = any(c[1] == 'cat' for c in shape['cols'])
     cat_mode = 'A' if rng.random() < 0.7 else 'B'
     handle = rng.choice(('fresh', 'fresh', 'long'))
+    # rows without a partition key in some frames (dropped on write:
+    # documented); a written, non-range index in some histories
+    shape['pnull'] = bool(shape['parts']) and rng.random() < 0.35
+    windex = rng.choice((None, None, None, 'i64', 'str'))
+    entries = ('wrg', 'wrg-iter') if handle == 'long' else \
+        ('write', 'write', 'wrg', 'wrg-iter')
     ops = []
     f0 = gen_frame_spec(rng, shape, 0, permute=False)
     op = {'op': 'write', 'frame': f0}
@@ -93,10 +99,17 @@ def generate(seed, idx, tier):
     multi = scheme != 'simple'
     with_removals = multi and rng.random() < 0.33
     with_faults = scheme in ('hive', 'simple') and rng.random() < 0.25
+    # a dataset directory that lost its summary files (written by a tool that
+    # does not keep one): the next append has to open it by listing
+    drop_meta = scheme == 'hive' and not shape['parts'] and \
+        not with_faults and not with_removals and rng.random() < 0.4
     batch = 0
     for _ in range(nsteps):
         batch += 1
         r = rng.random()
+        if drop_meta and rng.random() < 0.5:
+            ops.append({'op': 'drop_meta'})
+            drop_meta = False
         if with_removals and r < 0.2:
             ops.append({'op': 'remove', 'sel': [rng.random()
                                                 for _ in range(3)],
@@ -112,8 +125,9 @@ def generate(seed, idx, tier):
                     c[4] = labels[:rng.randrange(1, len(labels) + 1)]
         o = {'op': 'failed_append' if (with_faults and r > 0.8)
              else 'append', 'frame': f,
-             'entry': 'wrg' if handle == 'long'
-             else rng.choice(('write', 'wrg'))}
+             'entry': rng.choice(entries)}
+        if o['entry'] == 'wrg-iter':
+            o['cuts'] = [rng.random() for _ in range(rng.choice((0, 1, 2)))]
         o.update(gen_wopts(rng, f['nrows'], has_cat, knobs))
         if o['op'] == 'failed_append':
             o['at'] = rng.random()
@@ -129,9 +143,13 @@ def generate(seed, idx, tier):
              else 'write'}
         o.update(gen_wopts(rng, f['nrows'], has_cat, knobs))
         ops.append(o)
+    if windex:
+        for o in ops:
+            if 'frame' in o:
+                o['frame']['index'] = windex
     local = not with_faults and rng.random() < 0.12
     return {'prop': PROP, 'seed': seed, 'idx': idx, 'tier': tier,
-            'local': local,
+            'local': local, 'windex': windex,
             'knobs': knobs, 'scheme': scheme, 'shape': shape, 'ops': ops,
             'cat_mode': cat_mode, 'handle': handle,
             'dur_seed': rng.randrange(2 ** 31)}
@@ -177,10 +195,12 @@ def execute(case):
     multi = scheme != 'simple'
     fs = D.new_fs('posix', local=case.get('local', False))
     path = D.ds_path(fs, 'ds.parq' if scheme == 'simple' else 'ds')
+    D.READ_KW = {'index': False} if case.get('windex') else {}
     try:
         return _execute(case, fs, path, res, cnt, faults, probes, bump,
                         violation, scheme, parts, multi)
     finally:
+        D.READ_KW = {}
         D.cleanup(fs)
 
 
@@ -197,10 +217,15 @@ def _execute(case, fs, path, res, cnt, faults, probes, bump, violation,
     with F.Knobs(case['knobs']), F.Poison():
         for si, op in enumerate(case['ops']):
             kind = op['op']
+            err = plan = None
             if kind == 'write':
                 df = F.build_frame(op['frame'])
                 try:
-                    D.do_write(fs, path, df, op, scheme, parts)
+                    if case.get('windex'):
+                        D.do_write(fs, path, df.set_index('k'), op, scheme,
+                                   parts, extra={'write_index': True})
+                    else:
+                        D.do_write(fs, path, df, op, scheme, parts)
                 except Exception as e:
                     res['verdict'] = 'discard'
                     res['discard'] = 'initial write refused: %s: %s' % (
@@ -246,8 +271,26 @@ def _execute(case, fs, path, res, cnt, faults, probes, bump, violation,
                     res['digest'] = 'discard'
                     return res
                 continue
+            elif kind == 'drop_meta':
+                left = sum(_max_new_files(o) for o in case['ops'][si:]
+                           if o['op'] in ('append', 'failed_append'))
+                nfiles = len([p for p in fs.snapshot()[0]
+                              if p.endswith('.parquet')])
+                # listing order is by name (part.10 sorts before part.2):
+                # stay below ten part files while the summary is away
+                if nfiles + left <= 10 and long_pf is None:
+                    for name in ('_metadata', '_common_metadata'):
+                        if D.is_local(fs):
+                            import os
+                            os.remove(path + '/' + name)
+                        else:
+                            fs.rm_file(path + '/' + name)
+                    bump(probes, 'summary_files_removed_before_append')
+                else:
+                    continue
             else:
                 df = F.build_frame(op['frame'])
+                wdf = df.set_index('k') if case.get('windex') else df
                 # ---- arm the storage-seam monitors
                 before = fs.snapshot()[0]
                 fs.hits = []
@@ -271,7 +314,7 @@ def _execute(case, fs, path, res, cnt, faults, probes, bump, violation,
                     probe = D.clone_fs(fs.snapshot(), 'posix')
                     probe.begin_op(track_reads=True)
                     try:
-                        D.do_append(probe, path, df.copy(), op, scheme, parts)
+                        D.do_append(probe, path, wdf.copy(), op, scheme, parts)
                         m = first_meta_call(probe.log, 0)
                     except Exception:
                         m = None
@@ -303,8 +346,8 @@ def _execute(case, fs, path, res, cnt, faults, probes, bump, violation,
                 fs.begin_op(plan, fault_rng=drng, rplan=rplan)
                 err = None
                 try:
-                    D.do_append(fs, path, df, op, scheme, parts,
-                                pf=long_pf if op.get('entry') == 'wrg'
+                    D.do_append(fs, path, wdf, op, scheme, parts,
+                                pf=long_pf if op.get('entry') != 'write'
                                 else None)
                 except SimCrash as e:
                     err = e
@@ -417,6 +460,18 @@ def _execute(case, fs, path, res, cnt, faults, probes, bump, violation,
                                o.get('frame', {}).get('nrows'))
                               for o in case['ops']], 'knobs': case['knobs']}
     return res
+
+
+def _max_new_files(op):
+    n = op['frame']['nrows']
+    if op.get('entry') == 'wrg-iter':
+        return len(op.get('cuts') or ()) + 1
+    r = op.get('rgo')
+    if r is None or n == 0:
+        return 1
+    if isinstance(r, list):
+        return len(r)
+    return -(-n // max(1, r)) if r else 1
 
 
 def _rgo_tag(r):
